@@ -519,6 +519,9 @@ fn recover(
         }
     }
 
+    // The re-applied pages must be durable before the WAL that can redo them is discarded.
+    ht_fd.sync_all()?;
+
     // Finally, we collapse the WAL file and fsync.
     writeout::truncate_wal(wal_fd, true)?;
 
